@@ -4,13 +4,13 @@ import Holpy.C01.AxiomProofs
 C01, the parenthesis "(with axioms only from the base logic)": proofs that cite the axioms of
 `library/logic_base.json` through the checker's `theorem` rule.
 
-`GoodIn StdBase th` = `th` passes `check_thm_type`, uses `equals`/`implies`/`all` at instances of
-their declared types, and is true in EVERY finite standard model `M` (all sizes ≥ 1 for type
+`GoodIn StdBase th` = `th` passes `check_thm_type` (which includes: `equals`/`implies`/`all` occur at
+instances of their declared types only) and is true in EVERY finite standard model `M` (all sizes ≥ 1 for type
 variables, schematic type variables, type constructors) under EVERY admissible valuation of
 variables, schematic variables and constants that reads the base-logic constants `true`, `false`,
 `neg`, `conj`, `disj`, `exists`, `exists1`, `IF` in the standard way at every instance of their
-declared types, `Some` as a choice function and `The` as a description operator (`StdBase`,
-Kernel/BaseLogic.lean).  `Gen.baseAxioms` is regenerated from the library by the real loader on
+declared types, `Some` as a choice function, `The` as a description operator and the internal
+marker `_VAR` as the predicate true of everything (`StdBase`, Kernel/BaseLogic.lean).  `Gen.baseAxioms` is regenerated from the library by the real loader on
 every run.
 -/
 namespace Holpy.C01
@@ -32,21 +32,31 @@ example : Gen.baseAxioms ≠ [] ∧ Gen.baseAxioms.lookup "conjI" = some Gen.ax_
 theorem stdBase_inhabited (M : Model) : ∃ ρ, Admissible M ρ ∧ StdBase M ρ :=
   ⟨stdVal M, stdVal_admissible M, stdVal_stdBase M⟩
 
-/-- One checker step over the base logic (a primitive rule, or `theorem` citing a base-logic
-axiom by name, followed by `check_thm_type`): premises good ⇒ accepted result good. -/
+/-- One checker step over the base logic (a primitive rule, `theorem` citing a base-logic axiom by
+name, or `variable`; followed by `check_thm_type`): premises good ⇒ accepted result good —
+whatever the argument is. -/
 theorem check_step_sound_ax (rule : String) (arg : ArgAx) (prems : List Thm) (th : Thm)
-    (hp : ∀ p ∈ prems, GoodIn StdBase p) (ha : arg.sigOK = true)
+    (hp : ∀ p ∈ prems, GoodIn StdBase p)
     (h : checkStepAx Gen.baseAxioms rule arg prems = .ok th) : GoodIn StdBase th :=
-  checkStepAx_sound_in stdBase_closed Gen.baseAxioms base_axioms_good rule arg prems th hp ha h
+  checkStepAx_sound_in stdBase_closed Gen.baseAxioms base_axioms_good mkVAR_validIn rule arg prems
+    th hp h
 
-/-- Whenever the checker accepts a gap-free proof built from the primitive rules and citations of
-base-logic axioms, every sequent in it is well-typed and true in every finite standard model of
-the base logic. -/
+/-- The same for a step with a STATED sequent: the checker computes the rule's result, requires
+that it `can_prove` the stated sequent (same conclusion, hypotheses a subset) and keeps the stated
+one (after `check_thm_type`): what is kept is good. -/
+theorem check_step_sound_stated (rule : String) (arg : ArgAx) (prems : List Thm)
+    (stated : Option Thm) (th : Thm) (hp : ∀ p ∈ prems, GoodIn StdBase p)
+    (h : checkStepSt Gen.baseAxioms rule arg prems stated = .ok th) : GoodIn StdBase th :=
+  checkStepSt_sound_in stdBase_closed Gen.baseAxioms base_axioms_good mkVAR_validIn rule arg prems
+    stated th hp h
+
+/-- Whenever the checker accepts a gap-free proof built from the primitive rules, citations of
+base-logic axioms and `variable` declarations (with or without stated sequents), every sequent in
+it is well-typed and true in every finite standard model of the base logic. -/
 theorem check_proof_sound_ax (steps : List StepAx) (res : List Thm)
-    (hs : ∀ s ∈ steps, s.arg.sigOK = true) (h : runScriptAx Gen.baseAxioms steps [] = .ok res) :
-    ∀ th ∈ res, GoodIn StdBase th :=
-  runScriptAx_sound_in stdBase_closed Gen.baseAxioms base_axioms_good steps [] res
-    (fun _ h => by cases h) hs h
+    (h : runScriptAx Gen.baseAxioms steps [] = .ok res) : ∀ th ∈ res, GoodIn StdBase th :=
+  runScriptAx_sound_in stdBase_closed Gen.baseAxioms base_axioms_good mkVAR_validIn steps [] res
+    (fun _ h => by cases h) h
 
 /-- `⊢ false` is false under the standard valuation of the one-element model -/
 theorem falseThm_not_validIn : ¬ ValidIn StdBase trivModel falseThm := by
@@ -59,16 +69,14 @@ theorem falseThm_not_validIn : ¬ ValidIn StdBase trivModel falseThm := by
 
 /-- No accepted proof from primitive rules and base-logic axioms ends in `⊢ false`. -/
 theorem no_false_ax (steps : List StepAx) (res : List Thm)
-    (hs : ∀ s ∈ steps, s.arg.sigOK = true) (h : runScriptAx Gen.baseAxioms steps [] = .ok res) :
-    falseThm ∉ res := by
+    (h : runScriptAx Gen.baseAxioms steps [] = .ok res) : falseThm ∉ res := by
   intro hm
-  exact falseThm_not_validIn ((check_proof_sound_ax steps res hs h _ hm).valid trivModel)
+  exact falseThm_not_validIn ((check_proof_sound_ax steps res h _ hm).valid trivModel)
 
 /-- the old theorems are the instance "no axioms, every valuation" of the same development -/
 theorem check_proof_sound_of_in (steps : List Step) (res : List Thm)
-    (hs : ∀ s ∈ steps, Arg.sigOK s.arg = true) (h : runScript steps [] = .ok res) :
-    ∀ th ∈ res, Good th :=
-  fun th hm => (goodIn_top_iff th).1 (check_proof_sound_in closedClass_top steps res hs h th hm)
+    (h : runScript steps [] = .ok res) : ∀ th ∈ res, Good th :=
+  fun th hm => (goodIn_top_iff th).1 (check_proof_sound_in closedClass_top steps res h th hm)
 
 end Holpy.C01
 
@@ -79,9 +87,9 @@ open Holpy
 
 /-- `theorem conjD1; assume ?A ∧ ?B; implies_elim` -/
 def demoConjD1 : List StepAx :=
-  [⟨"theorem", .name "conjD1", []⟩,
-   ⟨"assume", .prim (.term (Term.mkConj (sB "A") (sB "B"))), []⟩,
-   ⟨"implies_elim", .prim .none, [0, 1]⟩]
+  [⟨"theorem", .name "conjD1", [], none⟩,
+   ⟨"assume", .prim (.term (Term.mkConj (sB "A") (sB "B"))), [], none⟩,
+   ⟨"implies_elim", .prim .none, [0, 1], none⟩]
 
 /-- the checker model accepts it and the last sequent is `?A ∧ ?B ⊢ ?A` -/
 example : (match runScriptAx Gen.baseAxioms demoConjD1 [] with
@@ -90,27 +98,39 @@ example : (match runScriptAx Gen.baseAxioms demoConjD1 [] with
 
 /-- so `check_proof_sound_ax` applies to it -/
 example : ∀ ths, runScriptAx Gen.baseAxioms demoConjD1 [] = .ok ths → ∀ th ∈ ths, GoodIn StdBase th :=
-  fun ths h => check_proof_sound_ax demoConjD1 ths (by decide) h
+  fun ths h => check_proof_sound_ax demoConjD1 ths h
 
 /-- `theorem classical; forall_intr ?A; forall_elim (x = x)`: `⊢ x = x ∨ ¬ x = x` -/
 def demoClassical : List StepAx :=
-  [⟨"theorem", .name "classical", []⟩,
-   ⟨"forall_intr", .prim (.term (sB "A")), [0]⟩,
-   ⟨"forall_elim", .prim (.term (Term.eqAt Ty.bool xB xB)), [1]⟩]
+  [⟨"theorem", .name "classical", [], none⟩,
+   ⟨"forall_intr", .prim (.term (sB "A")), [0], none⟩,
+   ⟨"forall_elim", .prim (.term (Term.eqAt Ty.bool xB xB)), [1], none⟩]
 
 example : (match runScriptAx Gen.baseAxioms demoClassical [] with
     | .ok ths => ths[2]? == some ⟨[], Term.mkDisj (Term.eqAt Ty.bool xB xB)
         (Term.mkNeg (Term.eqAt Ty.bool xB xB))⟩
     | .error _ => false) = true := by decide
 
+/-- `variable (x, bool)` gives `⊢ _VAR x`; a stated weaker sequent is what is kept; a stated
+stronger one (a hypothesis dropped) is rejected -/
+example : (match runScriptAx Gen.baseAxioms
+      [⟨"variable", .var "x" Ty.bool, [], none⟩,
+       ⟨"assume", .prim (.term xB), [], some ⟨[xB, sB "A"], xB⟩⟩] [] with
+    | .ok ths => ths == [Thm.mkVAR "x" Ty.bool, ⟨[xB, sB "A"], xB⟩]
+    | .error _ => false) = true := by decide
+
+example : isOk (runScriptAx Gen.baseAxioms
+    [⟨"assume", .prim (.term xB), [], some ⟨[], xB⟩⟩] []) = false := by decide
+
 /-- a name that is not a theorem of the theory is rejected -/
-example : isOk (runScriptAx Gen.baseAxioms [⟨"theorem", .name "conjD3", []⟩] []) = false := by decide
+example : isOk (runScriptAx Gen.baseAxioms [⟨"theorem", .name "conjD3", [], none⟩] []) = false := by decide
 
 /-- a polymorphic axiom used at an instance: `theorem exI; subst_type {a: bool}` -/
 example : isOk (runScriptAx Gen.baseAxioms
-    [⟨"theorem", .name "exI", []⟩, ⟨"subst_type", .prim (.tyinst [("a", Ty.bool)]), [0]⟩] []) = true := by
-  simp [runScriptAx, checkStepAx, Gen.baseAxioms, List.lookup, lookupPrems, checkStep, applyRule,
-    Thm.substType, Thm.mk', Thm.addTuple, Thm.checkThmType, Gen.ax_exI, Term.substType, Ty.subst,
-    Ty.fn, Ty.bool, Term.checkedGetType, bind, Except.bind, Ty.isFun, Ty.domain?, Ty.range?, isOk]
+    [⟨"theorem", .name "exI", [], none⟩, ⟨"subst_type", .prim (.tyinst [("a", Ty.bool)]), [0], none⟩] []) = true := by
+  simp [runScriptAx, checkStepSt, applyRuleAx, finishStep, Gen.baseAxioms, List.lookup, lookupPrems, applyRule,
+    Thm.substType, Thm.mk', Thm.addTuple, Thm.checkThmTypeSig, Thm.checkThmType, Thm.sigOK, Gen.ax_exI, Term.substType, Ty.subst,
+    Ty.fn, Ty.bool, Term.checkedGetType, bind, Except.bind, Ty.isFun, Ty.domain?, Ty.range?, isOk,
+    sigOK, logicalKind]
 
 end Holpy.C01
